@@ -3,6 +3,7 @@ package main
 import (
 	"go/token"
 	"go/types"
+	"sort"
 
 	"golang.org/x/tools/go/ssa"
 )
@@ -157,7 +158,14 @@ func (g *Global) valueLeaks(v ssa.Value, seen map[ssa.Value]bool, depth int) boo
 func (ex *Exec) preserveLocals(fr *Frame, pc Term, old, cur State, keys map[string]bool) {
 	for f := fr; f != nil; f = f.parent {
 		leaked := ex.g.leakedAllocs(f.fn)
-		for al, a := range f.allocAddrs() {
+		addrs := f.allocAddrs()
+		var als []*ssa.Alloc
+		for al := range addrs {
+			als = append(als, al)
+		}
+		sort.Slice(als, func(i, j int) bool { return allocOrder(als[i]) < allocOrder(als[j]) })
+		for _, al := range als {
+			a := addrs[al]
 			if leaked[al] || a.Local != nil || a.Ref.S == "" {
 				continue
 			}
